@@ -34,6 +34,8 @@ type graph struct {
 	edges [][2]int
 }
 
+var oversizeText = strings.Repeat("x", 11000)
+
 func must(err error) {
 	if err != nil {
 		panic(err)
@@ -242,6 +244,13 @@ func TestC10(t *testing.T) {
 						if ai == bi {
 							continue
 						}
+						// every router first tries to originate a notice that is too big to build (refused
+						// with an error): whatever such an aborted build leaves behind must not touch the
+						// frames the router relays next.
+						for _, n := range ms.nodes {
+							_ = n.Router().ErrorPing.SendGeneric(b.Identity().IP, oversizeText)
+						}
+						ms.w.InFlight = nil
 						ms.w.Log = nil
 						notify, _, err := a.Router().PingPong.Send(b.Identity().IP, false, 0)
 						evals++
